@@ -4,6 +4,11 @@ import json, os, sys
 ROOT = os.path.dirname(os.path.dirname(os.path.abspath(__file__)))
 
 CHECKS = {
+ "C20": ("fault_enumeration",
+         "stateful model-based property testing (proptest op sequences against a reference map) + enumeration of file-level faults on the disk tier + model test of the semantic retention index",
+         "MemoryTier and DiskTier are driven by generated op sequences (incl. reopen) and compared with a reference map after every step; every stored file of generated disk stores is corrupted by byte flips, truncation at every (or 40 evenly spaced) lengths, extension, replacement, deletion and stray temp files - get must return the exact content, absence or a typed HashMismatch; RetainedBlobIndex is checked against a coordinate map incl. conflicts, aliasing, ranges, budgets and missing material.",
+         "Covers the content-addressed tiers and echo-cas retention; the WSC/WAL export-profile re-import half of the property is not covered by this check yet (stated in evidence assumptions).",
+         "DESIGN.md §4 C20"),
  "C19": ("exploration",
          "differential testing across three build profiles of one harness binary over integer-indexed input streams (stratified 2^24 sample / all 2^32 bit patterns for unary ops; specials grid + seeded tuples for n-ary ops), digest comparison with bisection to the minimal input; single-build invariant checks (canonical closure, odd/even symmetry, range)",
          "Every public scalar/trig/fixed-point/PRNG/vector/quaternion/matrix operation is evaluated in dev (opt 0 + debug assertions), release (opt 3) and the repo's size-optimised release profile; output bit patterns must agree on every input and no profile may panic on a finite in-domain input; every F32Scalar result must be canonical (+0, no subnormal, canonical NaN), sin exactly odd, cos exactly even, both in [-1,1]. Thorough tier is exhaustive over all 2^32 inputs for unary operations.",
